@@ -24,7 +24,7 @@ def CycWF (s : Sys) : Prop :=
   ∀ cs, s.cyc = some cs → (cs.phase = .atRx2 ∨ cs.phase = .atReport) → cs.todo = []
 
 structure ChanInv (s : Sys) : Prop where
-  cons : ∀ w, Additive w → wsum w s.g.accepted = s.flow w + s.g.out w
+  cons : ∀ w, Additive w → wsum w s.g.accepted + wsum w (s.g.injected.map Cmd.drop) = s.flow w + s.g.out w
   sig : ∀ e ∈ s.threads, ∀ c ∈ e.2.pending, c.isSignal = true
   wf : CycWF s
   lost : ∀ c ∈ s.g.lostAtExit, c.isSignal = true
@@ -135,6 +135,13 @@ theorem Step.withSpansAdapters {s : Sys} (x : List (String × SpanVal)) (y : Lis
   Step.of_fields rfl rfl rfl rfl rfl rfl rfl
 theorem Step.withNextCollect {s : Sys} (n : Nat) : Step s { s with nextCollect := n } :=
   Step.of_fields rfl rfl rfl rfl rfl rfl rfl
+theorem Step.withParked {s : Sys} (x : List Nat) : Step s { s with parkedCancels := x } :=
+  Step.of_fields rfl rfl rfl rfl rfl rfl rfl
+theorem Step.noteParked (s : Sys) (t cid : Nat) : Step s (s.noteParked t cid) := by
+  unfold Sys.noteParked
+  split
+  · exact Step.refl s
+  · exact Step.withParked _
 
 /-! ### `register`, `setRing` and the drain's bookkeeping -/
 
@@ -206,11 +213,12 @@ theorem Sys.setRing_coll (s : Sys) (t : Nat) (r : Ring Cmd) : (s.setRing t r).co
 
 /-- a command whose sender is blocked or orphaned changes only the `blocked` / `orphaned` logs -/
 theorem ChanInv.withG_side {s : Sys} (h : ChanInv s) (g : Ghost) (h1 : g.accepted = s.g.accepted) (h2 : g.consumed = s.g.consumed)
-    (h3 : g.discarded = s.g.discarded) (h4 : g.lostAtExit = s.g.lostAtExit) : ChanInv (s.withG g) := by
+    (h3 : g.discarded = s.g.discarded) (h4 : g.lostAtExit = s.g.lostAtExit)
+    (h5 : g.injected = s.g.injected := by rfl) : ChanInv (s.withG g) := by
   refine ⟨?_, h.sig, h.wf, by rw [Sys.withG_g, h4]; exact h.lost⟩
   intro w hw
   have := h.cons w hw
-  simp only [Sys.withG_g, Sys.withG_flow, Ghost.out, h1, h2, h3, h4] at this ⊢
+  simp only [Sys.withG_g, Sys.withG_flow, Ghost.out, h1, h2, h3, h4, h5] at this ⊢
   exact this
 
 theorem FifoInv.withG_side {s : Sys} (h : FifoInv s) (g : Ghost) (h6 : g.acceptedBy = s.g.acceptedBy)
@@ -224,9 +232,10 @@ theorem FifoInv.withG_side {s : Sys} (h : FifoInv s) (g : Ghost) (h6 : g.accepte
 
 theorem Step.withG_side {s : Sys} (g : Ghost) (h1 : g.accepted = s.g.accepted) (h2 : g.consumed = s.g.consumed)
     (h3 : g.discarded = s.g.discarded) (h4 : g.lostAtExit = s.g.lostAtExit) (h5 : g.reported = s.g.reported)
-    (h6 : g.acceptedBy = s.g.acceptedBy := by rfl) (h7 : g.drainedBy = s.g.drainedBy := by rfl) :
+    (h6 : g.acceptedBy = s.g.acceptedBy := by rfl) (h7 : g.drainedBy = s.g.drainedBy := by rfl)
+    (h8 : g.injected = s.g.injected := by rfl) :
     Step s (s.withG g) :=
-  ⟨fun h => h.withG_side g h1 h2 h3 h4, rfl, h2, h5, h3, fun h => h.withG_side g h6 h7⟩
+  ⟨fun h => h.withG_side g h1 h2 h3 h4 h8, rfl, h2, h5, h3, fun h => h.withG_side g h6 h7⟩
 
 theorem orElse_none' {α : Type} (o : Option α) : (o.orElse fun _ => none) = o := by cases o <;> rfl
 
@@ -373,7 +382,8 @@ theorem ChanInv.afterSend {s1 : Sys} (h : ChanInv s1) (t : Nat) (r r' : Ring Cmd
     (hring : s1.ringOf t = some r)
     (hflow : ∀ w, wsum w r'.q + wsum w th'.pending = wsum w r.q + wsum w (s1.th t).pending + wsum w added)
     (ha : g'.accepted = added ++ s1.g.accepted) (hc : g'.consumed = s1.g.consumed) (hd : g'.discarded = s1.g.discarded)
-    (hl : g'.lostAtExit = s1.g.lostAtExit) (hsig : ∀ c ∈ th'.pending, c.isSignal = true) :
+    (hl : g'.lostAtExit = s1.g.lostAtExit) (hsig : ∀ c ∈ th'.pending, c.isSignal = true)
+    (hi : g'.injected = s1.g.injected := by rfl) :
     ChanInv (((s1.setRing t r').setTh t th').withG g') := by
   refine ⟨?_, ?_, ?_, ?_⟩
   · intro w hw
@@ -382,7 +392,7 @@ theorem ChanInv.afterSend {s1 : Sys} (h : ChanInv s1) (t : Nat) (r r' : Ring Cmd
     have e3 := Sys.setTh_flow w (s1.setRing t r') t th'
     rw [Sys.setRing_th] at e3
     have e4 := h.cons w hw
-    simp only [Sys.withG_g, Sys.withG_flow, Ghost.out, ha, hc, hd, hl, wsum_append] at e4 ⊢
+    simp only [Sys.withG_g, Sys.withG_flow, Ghost.out, ha, hc, hd, hl, hi, wsum_append] at e4 ⊢
     omega
   · intro e he
     rw [Sys.withG_threads] at he
@@ -477,6 +487,7 @@ theorem Step.sendCmd (s : Sys) (t : Nat) (cmd : Cmd) (forced : Bool) (hf : force
           · cases hok : (r.send (s1.th t).pending cmd).2.2 <;> simp [hok]
           · cases hok : (r.send (s1.th t).pending cmd).2.2 <;> simp [hok]
         · refine ChanInv.afterSend h t r _ _ _ (if (r.send (s1.th t).pending cmd).2.2 then [cmd] else []) hring ?_ ?_ ?_ ?_ ?_ ?_
+            (by cases hok : (r.send (s1.th t).pending cmd).2.2 <;> simp [hok])
           · intro w
             have := Ring.send_w w r (s1.th t).pending cmd
             cases hok : (r.send (s1.th t).pending cmd).2.2 <;>
